@@ -166,7 +166,7 @@ func rulePanicForeign(c *Ctx, r *R) {
 					ctx = c.panicContext(node, c.InfoFor(node))
 				}
 				key := fname + "|" + tname + "|" + ctx
-				if strings.HasPrefix(tname, "dynamic:") && isRepanicOfRecover(p) {
+				if isRepanicOfRecover(p) {
 					r.ok("repanic:"+fname, site, "re-panics the recovered value (propagation, not a new payload)")
 					continue
 				}
